@@ -14,7 +14,7 @@ LEVEL = "exploration"
 RULE = (
     "(a) core: G-matrix instances (single / 2 unrelated / trio in several index orders / quartet; 1-9 reads with gaps and nesting "
     "over 1-10 columns incl. read-free columns and column counts straddling floor(sqrt(n)); phred weights 0 (the 0.9999 special "
-    "case), 1-60; recombination costs 0-100; priors uniform / skewed / near-degenerate given as probabilities exactly as "
+    "case), 1-60, and 240-335 (beyond the precomputed table); recombination costs 0-100; priors uniform / skewed / near-degenerate given as probabilities exactly as "
     "cli/genotype.py passes them) through whatshap.core.GenotypeDPTable; oracle O-fb = enumeration of all 2^R global read-side "
     "vectors with a dense float64 forward-backward over (transmission, allele assignment); agreement within 1e-9 absolute. "
     "(b) pipeline: whatshap genotype (run_genotype in-process, GenotypeDPTable interposed) on simulated data with read errors, "
@@ -85,9 +85,14 @@ def gen_core(rng, lane):
         if inst["positions"]:
             break
     n = len(inst["positions"])
+    heavy = rng.random() < 0.15  # weights beyond the precomputed phred table (>= 256), as re-aligned long indels get
     for rd in inst["reads"]:
         for v in rd["vars"]:
-            v[2] = rng.choice([0, 1, 3, 10, 20, 30, 45, 60]) if rng.random() < 0.8 else rng.randint(0, 60)
+            if heavy:
+                v[2] = rng.randint(240, 335)
+            else:
+                v[2] = rng.choice([0, 1, 3, 10, 20, 30, 45, 60]) if rng.random() < 0.8 else rng.randint(0, 60)
+    inst["heavy_weights"] = heavy
     pm = rng.choice(["uniform", "skewed", "degenerate", "mixed"])
     priors = []
     for i in range(inst["n_ind"]):
